@@ -1707,6 +1707,34 @@ func c02Campaign(c *Ctx) {
 				}
 			}
 		}
+		// a SIBLING that executes to the very end and is rejected only afterwards: assembled by the miner path from OTHER
+		// transactions (it pays a fresh address nothing else ever touches), consistent in every root, then one header figure
+		// that is checked AFTER the execution is changed (GasUsed+1 / LogRoot) and the in-turn deputy signs it again. The
+		// node executes it on `parent`, rejects it — and the honest block that follows, executed by the same node on the
+		// same parent, must not be affected by anything that execution left behind.
+		if !snapshotNext && c.Rnd.Intn(3) == 0 {
+			s.txSeq++
+			fresh := keyAddr(detKey(fmt.Sprintf("c02-fresh-%d", s.txSeq)))
+			sibTxs := types.Transactions{txTransfer(w.FounderKey, fresh, lemo(int64(7+c.Rnd.Intn(20))), TxOpt{Exp: uint64(t) + 600, Msg: fmt.Sprintf("c02-sib-%d", s.txSeq)})}
+			if c.Rnd.Intn(2) == 0 && len(txs) > 0 {
+				sibTxs = append(sibTxs, txs[0])
+			}
+			if sb, _, err := s.build(parent, t, sibTxs, nil); err == nil && len(sb.Txs) == len(sibTxs) {
+				m := CloneBlock(sb)
+				what := "GasUsed+1"
+				if c.Rnd.Intn(2) == 0 {
+					m.Header.GasUsed++
+				} else {
+					m.Header.LogRoot = c02Flip(m.Header.LogRoot)
+					what = "LogRoot"
+				}
+				if s.sign(m, "in-turn", honestKey) {
+					c.Count("nontrivial:sibling-executed-to-the-end-then-rejected:" + what)
+					s.runCase(m, "sibling-of-other-txs "+what+" signer=in-turn", false, probe)
+					cases++
+				}
+			}
+		}
 		// the honest block itself
 		v := s.runCase(blk, "honest", true, probe)
 		cases++
